@@ -25,7 +25,9 @@ echo "   exit=$M"; [ $M -eq 0 ] && echo "   (demo did not fail!)"
 rm -f $DEMODIR/zz_seed_demo_test.go
 if [ "${SUITE:-0}" = 1 ]; then
   echo "== existing suite on patched tree"
-  timeout 900 go test -vet=off -count=1 -timeout 300s ./... > $T/suite.log 2>&1; S=$?
+  # TestResponseToTimedOutIQ of the root package is a known flake (it hangs
+  # now and then on the unmodified tree): short timeout, one retry
+  ( timeout 900 go test -vet=off -count=1 -timeout 60s ./... || timeout 900 go test -vet=off -count=1 -timeout 60s ./... ) > $T/suite.log 2>&1; S=$?
   echo "   exit=$S"; [ $S -ne 0 ] && grep -v "^ok\|no test files" $T/suite.log | tail -5
 fi
 echo "== check $PROP on patched tree"
